@@ -55,12 +55,13 @@ VARIABLES
   commits,   \* every completed OnCommit callback [h, v], in order (the outside world)
   ghost,     \* history: first own proposal value made durable or visible per (h, r)
   ref,       \* history: state a crash-free machine reaches on the durable log (set by Recover)
-  ok,        \* history: [flush |-> ..., state |-> ..., height |-> ...] property monitors
+  ok,        \* history: [flush, state, height, noop] property monitors
+  pre,       \* history: the machine just before a GRACEFUL stop ([set |-> FALSE] otherwise)
   nin, ncr,  \* counters for the bounds
   obs        \* last step (observation only)
 
-vars == <<sm, mode, queue, rq, pending, durable, pruned, tmo, sent, commits, ghost, ref, ok, nin, ncr, obs>>
-view == <<sm, mode, queue, rq, pending, durable, pruned, tmo, sent, commits, ghost, ref, ok, nin, ncr>>
+vars == <<sm, mode, queue, rq, pending, durable, pruned, tmo, sent, commits, ghost, ref, ok, pre, nin, ncr, obs>>
+view == <<sm, mode, queue, rq, pending, durable, pruned, tmo, sent, commits, ghost, ref, ok, pre, nin, ncr>>
 
 \* ---- substitutions for Tendermint's operator constants
 \* every stake is 1 at odd heights and 2 at even heights (the total changes at every commit)
@@ -161,29 +162,35 @@ RefFold(s, es) ==
 Core(s) == [s EXCEPT !.nval = 0, !.memo = {}]
 Obs(t, in, e, acts, effs) == [t |-> t, in |-> in, e |-> e, acts |-> acts, effs |-> effs]
 NoObs == Obs("init", InStart, NoAct, <<>>, <<>>)
-OkInit == [flush |-> TRUE, state |-> TRUE, height |-> TRUE]
+OkInit == [flush |-> TRUE, state |-> TRUE, height |-> TRUE, noop |-> TRUE]
+NoPre == [set |-> FALSE, s |-> InitProc(Me, 0)]
 
 Init ==
   /\ sm = InitProc(Me, H0) /\ mode = "listen" /\ queue = <<>> /\ rq = <<>> /\ pending = <<>>
   /\ durable = <<>> /\ pruned = 0 /\ tmo = {} /\ sent = <<>> /\ commits = <<>> /\ ghost = {}
-  /\ ref = InitProc(Me, H0) /\ ok = OkInit /\ nin = 0 /\ ncr = 0 /\ obs = NoObs
+  /\ ref = InitProc(Me, H0) /\ ok = OkInit /\ pre = NoPre /\ nin = 0 /\ ncr = 0 /\ obs = NoObs
 
 \* driver.go:listen — ProcessStart(0) at the top of the loop (after replay, after every commit)
 NeedStart == ~sm.started
 
-Input(in) ==
+\* the driver hands one input to the state machine (no guard on the input alphabet: trace validation
+\* uses this directly)
+Process(in) ==
   /\ mode = "listen" /\ queue = <<>>
-  /\ IF NeedStart THEN in = InStart ELSE (in.t # "start" /\ sm.h <= MaxHeight)
-  /\ in.t = "msg" => (nin < MaxInputs /\ Msg(in.k, in.h, in.r, in.s, in.v, in.vr) \in PeerMsgs(sm.h))
-  /\ in.t = "timeout" => (nin < MaxInputs /\ Tmo(in.v, in.h, in.r) \in tmo
-                          /\ (in.v = PRECOMMIT => in.r < MaxRound))
   /\ \E res \in {Apply(sm, in)} :
        /\ sm' = res[1]
        /\ queue' = Expand(res[2], FALSE)
        /\ obs' = Obs("in", in, NoAct, res[2], Expand(res[2], FALSE))
   /\ tmo' = IF in.t = "timeout" THEN tmo \ {Tmo(in.v, in.h, in.r)} ELSE tmo
   /\ nin' = IF in.t = "start" THEN nin ELSE nin + 1
-  /\ UNCHANGED <<mode, rq, pending, durable, pruned, sent, commits, ghost, ref, ok, ncr>>
+  /\ UNCHANGED <<mode, rq, pending, durable, pruned, sent, commits, ghost, ref, ok, pre, ncr>>
+
+Input(in) ==
+  /\ IF NeedStart THEN in = InStart ELSE (in.t # "start" /\ sm.h <= MaxHeight)
+  /\ in.t = "msg" => (nin < MaxInputs /\ Msg(in.k, in.h, in.r, in.s, in.v, in.vr) \in PeerMsgs(sm.h))
+  /\ in.t = "timeout" => (nin < MaxInputs /\ Tmo(in.v, in.h, in.r) \in tmo
+                          /\ (in.v = PRECOMMIT => in.r < MaxRound))
+  /\ Process(in)
 
 \* ---- one effect of driver.go:execute / commit
 EffFlush ==
@@ -222,7 +229,7 @@ Effect ==
             [] e.e = "prune" -> EffPrune(e.a)
        /\ obs' = Obs("eff", InStart, e.a, <<>>, <<e>>)
   /\ queue' = Tail(queue)
-  /\ UNCHANGED <<sm, mode, rq, ref, nin, ncr>>
+  /\ UNCHANGED <<sm, mode, rq, ref, pre, nin, ncr>>
 
 Crash ==
   /\ mode # "crashed" /\ ncr < MaxCrashes
@@ -231,7 +238,22 @@ Crash ==
   /\ queue' = <<>> /\ rq' = <<>> /\ pending' = <<>> /\ tmo' = {}
   /\ ncr' = ncr + 1
   /\ obs' = Obs("crash", InStart, NoAct, <<>>, <<>>)
+  /\ pre' = NoPre
   /\ UNCHANGED <<durable, pruned, sent, commits, ghost, ref, ok, nin>>
+
+\* graceful stop: the context is cancelled while the driver is idle in its loop; Run returns and its
+\* deferred WAL Close() FLUSHES whatever is still buffered (driver.go:Run, wal_store.go:Close)
+Stop ==
+  /\ mode = "listen" /\ queue = <<>> /\ sm.started /\ ncr < MaxCrashes
+  /\ \E f \in {FlushInto(pending, durable, pruned)} : durable' = f[1] /\ pruned' = f[2]
+  /\ ghost' = GhostAdd(ghost, OwnOf([i \in DOMAIN pending |-> pending[i].a]))
+  /\ pre' = [set |-> TRUE, s |-> sm]
+  /\ mode' = "crashed"
+  /\ sm' = InitProc(Me, 0)
+  /\ queue' = <<>> /\ rq' = <<>> /\ pending' = <<>> /\ tmo' = {}
+  /\ ncr' = ncr + 1
+  /\ obs' = Obs("stop", InStart, NoAct, <<>>, <<>>)
+  /\ UNCHANGED <<sent, commits, ref, ok, nin>>
 
 Recover ==
   /\ mode = "crashed"
@@ -241,7 +263,7 @@ Recover ==
   /\ rq' = LoadAll(durable)
   /\ mode' = "replay"
   /\ obs' = Obs("recover", InStart, NoAct, LoadAll(durable), <<>>)
-  /\ UNCHANGED <<queue, pending, durable, pruned, tmo, sent, commits, ghost, ok, nin, ncr>>
+  /\ UNCHANGED <<queue, pending, durable, pruned, tmo, sent, commits, ghost, ok, pre, nin, ncr>>
 
 \* driver.go:replay — one log entry
 ReplayNext ==
@@ -255,13 +277,16 @@ ReplayNext ==
               /\ queue' = Expand(res[2], TRUE)
               /\ obs' = Obs("rp", InStart, e, res[2], Expand(res[2], TRUE))
   /\ rq' = Tail(rq)
-  /\ UNCHANGED <<mode, pending, durable, pruned, tmo, sent, commits, ghost, ref, ok, nin, ncr>>
+  /\ UNCHANGED <<mode, pending, durable, pruned, tmo, sent, commits, ghost, ref, ok, pre, nin, ncr>>
 
 ReplayDone ==
   /\ mode = "replay" /\ queue = <<>> /\ rq = <<>>
   /\ mode' = "listen"
   /\ ok' = [ok EXCEPT !.state = @ /\ Core(sm) = Core(ref),   \* (iii)
-                      !.height = @ /\ sm.h = ChainH + 1]      \* (iv)
+                      !.height = @ /\ sm.h = ChainH + 1,     \* (iv)
+                      \* a graceful restart is a no-op on the consensus state
+                      !.noop = @ /\ (pre.set => Core(sm) = Core(pre.s))]
+  /\ pre' = NoPre
   /\ obs' = Obs("ready", InStart, NoAct, <<>>, <<>>)
   /\ UNCHANGED <<sm, queue, rq, pending, durable, pruned, tmo, sent, commits, ghost, ref, nin, ncr>>
 
@@ -270,7 +295,7 @@ Inputs ==
 
 Next ==
   \/ \E in \in Inputs : Input(in)
-  \/ Effect \/ Crash \/ Recover \/ ReplayNext \/ ReplayDone
+  \/ Effect \/ Crash \/ Stop \/ Recover \/ ReplayNext \/ ReplayDone
 
 Spec == Init /\ [][Next]_vars
 
@@ -301,6 +326,10 @@ RecoveredState == ok.state
 ResumeHeight ==
   /\ ok.height
   /\ (mode \in {"listen", "replay"} /\ queue = <<>>) => sm.h = ChainH + 1
+
+\* restart (graceful: stop while idle, buffered records flushed by Close) is a no-op: after replay the
+\* machine is exactly where it was.  (Fails with H6 in the proposer role, like RecoveredState.)
+GracefulRestartIsNoOp == ok.noop
 
 \* log hygiene: nothing at or below the pruned height is live; a started height has its Start entry
 \* durable before anything of it became visible
